@@ -5,7 +5,8 @@
 (*  - every answer consumes a distinct, earlier, not yet answered query with   *)
 (*    the same address, id, question name and type (at most one answer per     *)
 (*    received query; nothing obliges the server to answer);                   *)
-(*  - at the end of every server step, per source address, at most HoldMax     *)
+(*  - at the end of every server step, per session (address + userid), at most *)
+(*    HoldMax                                                                  *)
 (*    distinct tunnel (ping/data) queries with id # 0 are held back.  A query  *)
 (*    stops counting as held once a query with the same question was answered  *)
 (*    (un-remembered duplicates are dropped by design).  For "held back" a     *)
@@ -16,15 +17,16 @@ EXTENDS Naturals, FiniteSets
 
 CONSTANT HoldMax
 
-VARIABLES pending,   \* set of [n, src, id, qn, lk, qt, tun, held]
+VARIABLES pending,   \* set of [n, src, holder, id, qn, lk, qt, tun, held]; holder = the session the query belongs to
+                     \* (requester address + userid in the query name: one address may speak for several sessions)
           done       \* questions <<lk, qt>> that have been answered at least once (repeats of those - from the same or
                      \* another relay address, the server's memories are keyed by question - are answered from the
                      \* memories at once and never count as held back)
 
 MAInit == pending = {} /\ done = {}
 
-Recv(n, src, id, qn, lk, qt, tun) ==
-    /\ pending' = pending \cup {[n |-> n, src |-> src, id |-> id, qn |-> qn, lk |-> lk, qt |-> qt,
+Recv(n, src, holder, id, qn, lk, qt, tun) ==
+    /\ pending' = pending \cup {[n |-> n, src |-> src, holder |-> holder, id |-> id, qn |-> qn, lk |-> lk, qt |-> qt,
                                  tun |-> tun, held |-> (<<lk, qt>> \notin done)]}
     /\ UNCHANGED done
 
@@ -39,14 +41,14 @@ Ans(dst, id, qn, lk, qt, hdr) ==
        \* "answering the older one when a newer one arrives": a held tunnel query is not answered while an OLDER
        \* tunnel query with another question from the same address is still held back
        /\ (hdr /\ r.tun /\ r.held /\ r.id # 0) =>
-             ~\E o \in pending : /\ o.src = r.src /\ o.tun /\ o.held /\ o.id # 0 /\ o.lk # r.lk /\ o.n < r.n
+             ~\E o \in pending : /\ o.holder = r.holder /\ o.tun /\ o.held /\ o.id # 0 /\ o.lk # r.lk /\ o.n < r.n
        /\ pending' = {IF x.lk = lk /\ x.qt = qt THEN [x EXCEPT !.held = FALSE] ELSE x
                       : x \in pending \ {r}}
        /\ done' = done \cup {<<lk, qt>>}
 
-HeldNames(s) == {r.lk : r \in {x \in pending : x.src = s /\ x.held /\ x.tun /\ x.id # 0}}
+HeldNames(s) == {r.lk : r \in {x \in pending : x.holder = s /\ x.held /\ x.tun /\ x.id # 0}}
 
-StepEnd == /\ \A s \in {r.src : r \in pending} : Cardinality(HeldNames(s)) <= HoldMax
+StepEnd == /\ \A s \in {r.holder : r \in pending} : Cardinality(HeldNames(s)) <= HoldMax
            /\ UNCHANGED <<pending, done>>
 
 MAReset == pending' = {} /\ done' = {}
